@@ -195,6 +195,7 @@ typedef struct cult {
     int expect_rank;
     int from;
     char *lo, *hi; /* observed stack bounds */
+    int from_started; /* incarnation of the caller that handed control to me */
     int away;      /* migrated out of the chain pool: not a target for ABT_thread_yield_to */
     int pool_idx;  /* pool the unit is (about to be) associated with */
     int from_migrated;
@@ -286,6 +287,7 @@ static void on_control(cult *me)
                   me->id);
         B.es_expect[rank] = -1;
     }
+    WL_DBG("[%lu] c%d has control on rank %d, from=%d expect=%d\n", (unsigned long)sim_steps(), me->id, rank, me->from, me->expect_caller_state);
     if (me->from >= 0) {
         SIM_CHECK(me->expect_rank == rank, "switch:wrong-stream", "target ULT %d runs on stream %d, the caller was on stream %d", me->id, rank, me->expect_rank);
         if (me->expect_caller_state >= 0) {
@@ -294,8 +296,9 @@ static void on_control(cult *me)
             ABT_OK(ABT_thread_get_state(f->th, &st));
             if (me->expect_caller_state == (int)ABT_THREAD_STATE_TERMINATED) {
                 /* named and not yet freed: still queryable; in a shared pool another stream may
-                 * already have revived it */
-                SIM_CHECK(st == ABT_THREAD_STATE_TERMINATED || ((!B.priv || B.any_away) && (f->hstate != H_REVIVABLE || f->claimed_by >= 0)), "switch:caller-state",
+                 * already have revived it (and that incarnation may be exiting again) */
+                SIM_CHECK(st == ABT_THREAD_STATE_TERMINATED || ((!B.priv || B.any_away) && (f->hstate != H_REVIVABLE || f->claimed_by >= 0 || f->started != me->from_started)),
+                          "switch:caller-state",
                           "caller ULT %d should be TERMINATED after exit_to, state %d", f->id, (int)st);
             } else if (me->expect_caller_state == (int)ABT_THREAD_STATE_BLOCKED) {
                 /* in a shared pool somebody may already have resumed it on another stream */
@@ -364,6 +367,7 @@ static void chain_body(void *arg)
     cult *me = (cult *)arg;
     me->started++;
     me->hstate = H_RUNNING;
+    WL_DBG("[%lu] c%d starts (incarnation %d)\n", (unsigned long)sim_steps(), me->id, me->started);
     if (B.c02)
         stack_checks(me, __builtin_frame_address(0));
     on_control(me);
@@ -447,6 +451,7 @@ static void chain_body(void *arg)
                                : (prim == P_EXIT_TO || prim == P_RESUME_EXIT_TO)     ? (int)ABT_THREAD_STATE_TERMINATED
                                                                                      : (int)ABT_THREAD_STATE_READY;
             tg->from = me->id;
+            tg->from_started = me->started;
             tg->from_migrated = migrating;
             tg->expect_caller_state = caller_after;
             tg->expect_rank = rank;
@@ -458,6 +463,7 @@ static void chain_body(void *arg)
         } else
             me->hstate = H_INPOOL;
         B.switches[prim]++;
+        WL_DBG("[%lu] c%d %s -> c%d (migrating=%d)\n", (unsigned long)sim_steps(), me->id, pn[prim], t, migrating);
         volatile uint64_t pat[24];
         uint64_t pbase = 0x5a5a0000ULL + (uint64_t)(me->id * 4096 + me->budget * 24);
         for (int i = 0; i < 24; i++)
